@@ -173,6 +173,15 @@ class Repo:
                 except SyntaxError as e:
                     raise AnalysisError(f'{fn} does not parse: {e}')
         self._tables: dict[str, dict] = {}
+        # see through helper extraction (identity on a tree without such helpers)
+        from .inline import normalise
+        self.inline_notes = normalise(self.modules)
+        if self.inline_notes['inlined']:
+            for m in self.modules.values():
+                m.funcs.clear()
+                m.classes.clear()
+                m.imports.clear()
+                m._index()
 
     # -- lookup ------------------------------------------------------------
     def module(self, name: str) -> Module:
